@@ -231,7 +231,7 @@ package fsutil
 //@   property C06 C11
 //@   requires s != nil && h != nil
 //@   modifies type sender, global bufPool, array byte
-//@   effects SendMsg MuLock MuUnlock Progress
+//@   effects SendMsg MuLock MuUnlock Progress FsOpen
 //@   ensures terminator: result == nil ==> cnt(SendMsg) >= old(cnt(SendMsg)) + 1 && arg(SendMsg, 0) == types.PACKET_DATA && arg(SendMsg, 1) == old(h.id) && arg(SendMsg, 2) == 0
 
 //@ pred specCanRequest(mode uint32) bool = mode & 0x8f280000 == 0
@@ -607,7 +607,7 @@ package fsutil
 //@   property C11
 //@   requires fs != nil
 //@   requires notexist_is_an_error: os.ErrNotExist != nil
-//@   effects MatchRes
+//@   effects MatchRes FsOpen
 //@   ensures include_decides: result1 == nil && fs.includeMatcher != nil && fs.excludeMatcher == nil ==> cnt(MatchRes) > old(cnt(MatchRes)) && arg(MatchRes, 0) == fs.includeMatcher && arg(MatchRes, 1)
 //@   ensures exclude_decides: result1 == nil && fs.excludeMatcher != nil ==> cnt(MatchRes) > old(cnt(MatchRes)) && arg(MatchRes, 0) == fs.excludeMatcher && !arg(MatchRes, 1)
 //@   at call FS.Open: visible: (fs.includeMatcher == nil && fs.excludeMatcher == nil) || cnt(MatchRes) > old(cnt(MatchRes))
@@ -691,3 +691,42 @@ package fsutil
 //@   modifies heap
 //@   effects *
 //@   ensures closed: result == nil ==> cnt(TarClose) >= old(cnt(TarClose)) + 1 && when(TarClose) == clk()
+
+// ---------------------------------------------------------------------------
+// followlinks.go (C18)
+// ---------------------------------------------------------------------------
+
+// x lies strictly inside the directory y: x == y + "/" + rest
+//@ pred specInside(x string, y string) bool = len(y) < len(x) && x[len(y)] == '/' && (forall j int :: 0 <= j && j < len(y) ==> x[j] == y[j])
+
+// lemmas over the path order used by the proof of dedupePaths
+//@ lemma inside_less C18: forall x string, y string :: specInside(x, y) ==> specPathLess(y, x)
+//@ lemma inside_hasprefix C18: forall s string, l string :: specHasPrefix(s, l + "/") == specInside(s, l)
+//@ lemma contiguity C18: forall a string, b string, c string :: specPathLess(a, b) && specPathLess(b, c) && specInside(c, a) ==> specInside(b, a)
+
+// the order FollowLinks sorts by is the protocol's path order
+//@ func FollowLinks$1
+//@   property C18
+//@   safety -index
+//@   ensures path_order: result == specPathLess(res[i], res[j])
+
+// For an input that is strictly ascending in path order the result contains no
+// element inside another one; a root entry (".") collapses the list to "no filter".
+// The precondition is established by FollowLinks (sort.Slice with the verified
+// comparator above over distinct map keys - not proved at the call site, see the
+// bounded stand-in); NewFilterFS applies the function to an unsorted pattern list,
+// where it only removes directly adjacent nested entries.
+//@ func dedupePaths
+//@   property C18
+//@   lemmas inside_less contiguity pathless_asym inside_hasprefix
+//@   opaque specPathLess specInside specHasPrefix
+//@   requires sorted: forall i int, j int :: 0 <= i && i < j && j < len(in) ==> specPathLess(in[i], in[j])
+//@   ensures root: (exists i int :: 0 <= i && i < len(in) && in[i] == ".") ==> result == nil
+//@   ensures prefix_free: forall a int, b int :: 0 <= a && a < len(result) && 0 <= b && b < len(result) && a != b ==> !specInside(result[b], result[a])
+//@   loop 0 invariant noroot: forall i int :: 0 <= i && i <= rangeindex ==> in[i] != "."
+//@   loop 0 invariant outfresh: fresh(out) && out != nil
+//@   loop 0 invariant room: cap(out) == len(in) && len(out) <= rangeindex + 1 && off(out) == 0
+//@   loop 0 invariant last: (len(out) == 0 ==> last == "") && (len(out) > 0 ==> last == out[len(out)-1])
+//@   loop 0 invariant below: forall a int, i int :: 0 <= a && a < len(out) && rangeindex < i && i < len(in) ==> specPathLess(out[a], in[i])
+//@   loop 0 invariant ordered: forall a int, b int :: 0 <= a && a < b && b < len(out) ==> specPathLess(out[a], out[b])
+//@   loop 0 invariant prefix_free{inside_less,contiguity,pathless_asym,inside_hasprefix}: forall a int, b int :: 0 <= a && a < len(out) && 0 <= b && b < len(out) && a != b ==> !specInside(out[b], out[a])
